@@ -43,6 +43,7 @@ func unitCases() (witnesses, rest []*pcase) {
 		}
 	}
 	all := append(append(append([]unit{}, units...), literalUnits()...), nsResolutionUnits()...)
+	all = append(append(all, byrefUnits()...), laterNodeUnits()...)
 	for i, u := range all {
 		body := strings.TrimLeft(u.src, "\n")
 		if u.raw {
